@@ -17,3 +17,6 @@ func (v *VerifTrimWriter) Write(b []byte) (int, error) { return v.tw.Write(b) }
 func (v *VerifTrimWriter) TrimLeft() error             { return v.tw.TrimLeft() }
 func (v *VerifTrimWriter) TrimRight()                  { v.tw.TrimRight() }
 func (v *VerifTrimWriter) Flush() (int, error)         { return v.tw.Flush() }
+
+// WriteVerbatim is trimWriter.WriteVerbatim.
+func (v *VerifTrimWriter) WriteVerbatim(b []byte) (int, error) { return v.tw.WriteVerbatim(b) }
